@@ -208,3 +208,6 @@ func VerifC12AddDate() {
 	// the solvers' time limits; finding instances, which is what a counterexample needs, is not)
 	verifReach("end")
 }
+
+func VerifC12MemProd3()    { verifC12(false, false, 3) }
+func VerifC12GcsNonprod3() { verifC12(true, true, 3) }
